@@ -602,7 +602,7 @@ class Explorer:
   """symbolic mode"""
   symbolic = True
 
-  def __init__(self, budget_s=600.0, max_paths=10 ** 7, query_timeout_ms=60000, max_violations=40):
+  def __init__(self, budget_s=600.0, max_paths=10 ** 7, query_timeout_ms=150000, max_violations=40):
     self.budget_s = budget_s
     self.max_paths = max_paths
     self.query_timeout_ms = query_timeout_ms
